@@ -281,6 +281,8 @@ func (pc *parentController) syncRevisionClaims(parentRevisions []*parentRevision
 				continue
 			}
 
+			// Keep only the names that survived the checks above.
+			ck.Names = names
 			children = append(children, ck)
 		}
 
